@@ -95,6 +95,11 @@ func defaultServerSettings() serverSettings {
 	}
 }
 
+const (
+	maxIndentSize      = 64
+	maxAlignmentColumn = 1024
+)
+
 func normalizeServerSettings(settings serverSettings) serverSettings {
 	defaults := defaultServerSettings()
 	if settings.Completion.MaxResults <= 0 {
@@ -102,6 +107,17 @@ func normalizeServerSettings(settings serverSettings) serverSettings {
 	}
 	if settings.Formatting.IndentSize <= 0 {
 		settings.Formatting.IndentSize = defaults.Formatting.IndentSize
+	}
+	// Both values become a number of blanks written on every posting line: an
+	// absurd value must not make formatting allocate gigabytes or panic.
+	if settings.Formatting.IndentSize > maxIndentSize {
+		settings.Formatting.IndentSize = maxIndentSize
+	}
+	if settings.Formatting.MinAlignmentColumn < 0 {
+		settings.Formatting.MinAlignmentColumn = 0
+	}
+	if settings.Formatting.MinAlignmentColumn > maxAlignmentColumn {
+		settings.Formatting.MinAlignmentColumn = maxAlignmentColumn
 	}
 	if settings.CLI.Path == "" {
 		settings.CLI.Path = defaults.CLI.Path
